@@ -780,6 +780,23 @@ impl Ics {
                     }
                 } else {
                     h.out.count("ack_or_timeout_handling_failed_and_reverted");
+                    // a genuine error-ack / timeout of a packet the contract sent must be processed, whatever the refund
+                    // does: otherwise the failed send stays booked as outstanding for good
+                    let k = (p.channel.clone(), p.denom.clone());
+                    // (a cw20 token that is neither allow-listed nor covered by a default gas limit, e.g. after an
+                    // upgrade from the pre-allow-list format, cannot be paid out: the contract refuses up front, changes
+                    // nothing and the relayer can retry once governance has allowed the token - not an abort)
+                    let refused_up_front = p.denom.starts_with("cw20:") && !pre.allow.contains_key(&p.denom[5..]) && pre.default_gas.is_none();
+                    if refused_up_front {
+                        h.out.count("ack_or_timeout_refused_token_not_payable_yet");
+                    }
+                    if prop == "C12" && !w.afflicted.contains(&k) && !refused_up_front {
+                        h.violate(
+                            &format!("C12/ack/{kind}/handling-of-a-genuine-failure-aborted"),
+                            format!("{kind} of packet seq {} ({} {} on {}) was refused: {} - the send has failed but stays outstanding", p.seq, p.amount, p.denom, p.channel, r.err_text()),
+                        );
+                        return false;
+                    }
                 }
             }
             Op::Allow { .. } | Op::UpdateAdmin { .. } | Op::Migrate { .. } | Op::Fault { .. } => {}
